@@ -30,8 +30,12 @@ CLAIMED = {
             "DESIGN.md §4 C09"),
     "C10": ("model_checking", "same histories with 5 position holders: per transaction every other trader's whole Position record is proved equal term-for-term before and after (Liquidate: except the named trader)",
             "DESIGN.md §4 C10"),
+    "C11": ("model_checking", "PayFunding at enumerated block times around the funding time ({-1,0,+1,+buffer..}) for periods {3600,5400,86400}, 1-3 settlements, net position of either sign (counter size symbolic), oracle price symbolic: success only at/after the funding time, cumulative fraction delta == trunc((vAMM TWAP - oracle TWAP) x period/day) from queries made before, next funding time >= now + period/2, exactly |net x fraction| moves vault<->insurance fund (capped at the vault balance); after a settlement every position operation (increase, reduce/reverse, withdraw, partial and whole close, deposit, partial liquidation) is checked for the exact funding charge and checkpoint movement",
+            "DESIGN.md §4 C11"),
     "C12": ("model_checking", "shared histories with toll and spread symbolic in [0,1] and amounts down to fee-rounds-to-zero: per transaction z3 proves fee-pool delta == floor(notional*toll), insurance-fund delta (net of recorded prepaid bad debt) == floor(notional*spread) with notional = floor(margin*leverage), once per reversal, the quoted fee on the open notional for whole closes, and zero for deposit/withdraw/funding/liquidation",
             "DESIGN.md §4 C12"),
+    "C13": ("model_checking", "twin deployments (native uwasm / cw20, 6 decimals, equal parameters) run the same symbolic history in lock-step inside one scenario, the native call attaching the sum of TransferFrom{owner: caller} amounts the cw20 twin delivered; per step z3 proves equality of Position records, vAMM state, engine state and per-account balance deltas (a relational property over two symbolic executions)",
+            "DESIGN.md §4 C13"),
     "C14": ("model_checking", "flags paused x closed x unregistered (7 non-trivial combinations) x 6 engine operations on a staged state with a liquidatable position and due funding, operation amounts symbolic, twin live deployment for 'pause does not block liquidation/funding'; registry histories of AddVamm/RemoveVamm over 4 addresses (all of length<=3, sampled length 5; thorough: all of length<=5) checked for duplicates/size/membership agreement; shutdown from every subset of already-closed vAMMs",
             "DESIGN.md §4 C14"),
     "C15": ("model_checking", "fluctuation limit, trade sizes and position size symbolic; band computed by the harness from the previous block's final price; successful opens (fresh / after in-block drift / reducing-reversing) proved to leave the spot price inside the band and to be rejected when it is already outside; ClosePosition with a 25% fraction: whole close only if the price after the whole close (vAMM quote) is inside, partial closes exactly the configured fraction; block patterns enumerated",
